@@ -334,6 +334,11 @@ def send_cases(chk):
                 for d in (-1, 0, 1):
                     mtus.add(ov + b + d)
             mtus |= {0, 1, 576, 1280}
+            if not thorough and L > 60000:
+                # quick tier: 64 KiB bundles only where their size matters (the driver pays per octet)
+                if xid != ids[0]:
+                    continue
+                mtus = {L - 1, L, L + 1, ov, ov + 24, ov + 65535, ov + 65536, ov + 65537, 1280}
             for m in sorted(x for x in mtus if x >= 0):
                 nseg = 1 if L < m else (L // (m - ov) + 1 if m > ov else 0)
                 if nseg > (70000 if thorough else 3000) and rng.random() > 0.05:
